@@ -112,7 +112,9 @@ def run(chk, prog):
     oc = offset_copy_from_field(s)
     ok = oc is not None and oc[3] and oc[0] == "wakePotential(_field)"
     nstores = [a for a in s.accesses if a.kind == "store" and a.base == "_offset" and a.idx is not None and getattr(a, "from_bulk", None) is None]
-    chk.check(ok and len(nstores) <= (0 if cp else 1), "R3", wu.where, "the kick offsets are the field's wake potential, copied without arithmetic", "WakePotentialMap::update:copy")
+    # (no element store into _offset other than the copy itself, which the scanner may present both as a loop store and as a copy_n)
+    extra_st = [a for a in nstores if not any(c.line == a.line for c in cp) and not (oc is not None and a.line == oc[2])]
+    chk.check(ok and not extra_st, "R3", wu.where, "the kick offsets are the field's wake potential, copied without arithmetic", "WakePotentialMap::update:copy")
     # after the offsets changed the source map is rebuilt on every path to the exit (an early return in between leaves the old table in force)
     gw = Fl_.CFG(wu)
     is_upd = Fl_.is_call_to("vfps::KickMap::updateSM")
